@@ -15,6 +15,7 @@ import FB.MakeDirs
 import FB.MakeRoom
 import FB.MakeRoomF
 import FB.MakeDirsF
+import FB.Commit
 import FB.Conc
 import FB.ConcDirs
 import FB.ConcDirsF
@@ -485,6 +486,18 @@ def runRB (j : Lean.Json) : Except String Lean.Json := do
   let r : FB.Rollback.RB := { createdDirs, newOutputs, oldOutputs, oldCreatedDirs, bk := { saved, absent } }
   return Json.mkObj [("tree", showTree (FB.Rollback.rollBack fs r))]
 
+/-- `_commit` (`FB.Commit`): the physical tree, the answers of the virtual tree, the bookkeeping it reads -/
+def runCM (j : Lean.Json) : Except String Lean.Json := do
+  let fs ← parseTree (← j.getObjVal? "tree")
+  let cf := parsePath (← (← j.getObjVal? "cf").getStr?)
+  let oldFiles ← getPaths (← j.getObjVal? "oldFiles")
+  let oldDirs ← getPaths (← j.getObjVal? "oldDirs")
+  let errDirs ← getPaths (← j.getObjVal? "errDirs")
+  let virtFiles ← getPaths (← j.getObjVal? "virtFiles")
+  let virtDirs ← getPaths (← j.getObjVal? "virtDirs")
+  return Json.mkObj [("tree", showTree (FB.Commit.commit (fun p => virtFiles.contains p) (fun p => virtDirs.contains p) cf
+    oldFiles oldDirs errDirs fs))]
+
 /-- `_make_dirs` (`FB.MakeDirs`): directories to make, old outputs, optional fault at the k-th `mkdir` -/
 def runMD (j : Lean.Json) : Except String Lean.Json := do
   let fs ← parseTree (← j.getObjVal? "tree")
@@ -552,6 +565,7 @@ def handle (line : String) : Lean.Json :=
       | "rb" => runRB j
       | "md" => runMD j
       | "mr" => runMR j
+      | "cm" => runCM j
       | "heap" => FB.Heap.heapRequest j
       | k => throw s!"unknown kind {k}"
     match r with
